@@ -101,6 +101,7 @@ static std::vector<int> g_atoms, g_quants;
 static std::vector<int> atom_preset(const std::string& p) {
     if (p == "full") return {A_a, A_b, A_dot, A_ab, A_nota, A_sub, A_d, A_w, A_s, A_i, A_c, A_Lu, A_nLu, A_Basic, A_escdot, A_U, A_empty};
     if (p == "small") return {A_a, A_b, A_dot, A_ab, A_empty};
+    if (p == "small4") return {A_a, A_b, A_dot, A_ab};  // for N = 5: nested counted quantifiers over <empty> only measure Xerces' exponential backtracking
     if (p == "lit") return {A_a, A_b, A_cc, A_dot, A_U};
     if (p == "flags") return {A_a, A_b, A_B, A_dot, A_ab, A_nota, A_bol, A_eol};
     if (p == "tiny") return {A_a, A_b, A_dot};
@@ -609,11 +610,12 @@ static int xmatch_guarded(const RE* re, const U16& s) {
     if (sigsetjmp(g_jmp, 1) == 0) { g_armed = 1; int v = xmatch(re, s, nullptr, nullptr); g_armed = 0; return v; }
     return V_CRASH;
 }
-static void exec_matches(Ctx& c, const U16& pat, const std::vector<std::string>& opts, size_t NS, int8_t* v, bool guarded) {
+static void exec_matches(Ctx& c, const U16& pat, const std::vector<std::string>& opts, size_t NS, int8_t* v, bool guarded, std::vector<std::unique_ptr<Compiled>>& objs) {
     bool crashed = false;
+    objs.clear();
+    for (size_t oi = 0; oi < opts.size(); oi++) { objs.emplace_back(new Compiled()); compile(*objs.back(), pat, opts[oi].c_str()); }
     for (size_t oi = 0; oi < opts.size() && !crashed; oi++) {
-        Compiled C;
-        compile(C, pat, opts[oi].c_str());
+        Compiled& C = *objs[oi];
         if (C.exc != EX_NONE) { memset(v + oi * NS, V_COMPILE_FAILED, NS); continue; }
         if (!guarded) for (size_t i = 0; i < NS; i++) v[oi * NS + i] = (int8_t)xmatch(C.re, STR.s[i], nullptr, nullptr);
         else for (size_t i = 0; i < NS; i++) {
@@ -622,6 +624,22 @@ static void exec_matches(Ctx& c, const U16& pat, const std::vector<std::string>&
             if (r == V_CRASH) { c.count("guarded:stack_exhaustions_caught"); crashed = true; break; }  // one witness per AST; everything after it stays V_NOT_RUN
         }
     }
+}
+
+// pre-probe used by the other spaces: does this (risky) AST exhaust the stack on some string of S under these options?
+static bool crashes_guarded(Ctx& c, int root, const U16& pat, const char* opts, const StrSet& S) {
+    if (!risky_ast(root)) return false;
+    Compiled C;
+    compile(C, pat, opts);
+    if (!C.re) return false;
+    for (auto& s : S.s)
+        if (xmatch_guarded(C.re, s) == V_CRASH) {
+            c.count("guarded:stack_exhaustions_caught");
+            c.count("known_defect:closure-infinite-recursion");
+            c.count("skipped_crashing_ast_x_options");
+            return true;
+        }
+    return false;
 }
 
 static void run_ast(uint64_t idx, Ctx& c) {
@@ -658,7 +676,8 @@ static void run_ast(uint64_t idx, Ctx& c) {
     std::vector<int8_t> V(allopts.size() * NS, V_NOT_RUN);
     bool guarded = risky_ast(root);
     if (guarded) c.count("guarded:asts");
-    exec_matches(c, pat, allopts, NS, V.data(), guarded);
+    std::vector<std::unique_ptr<Compiled>> objs;
+    exec_matches(c, pat, allopts, NS, V.data(), guarded, objs);
 
     // ---- compare
     for (int mode = 0; mode < 2; mode++) {
@@ -672,8 +691,7 @@ static void run_ast(uint64_t idx, Ctx& c) {
             size_t oi = ois[q];
             int8_t* got = V.data() + oi * NS;
             const std::string& opts = allopts[oi];
-            Compiled C;
-            compile(C, pat, opts.c_str());
+            Compiled& C = *objs[oi];
             if (C.exc != EX_NONE) {
                 c.violation("valid-pattern-rejected-" + mname, ast_json(root) + ",\"options\":" + jstr(opts) + ",\"exception\":" + jstr(EXNAME[C.exc]) + ",\"detail\":" + jstr(C.detail));
                 comparable = false;
@@ -786,6 +804,7 @@ static void run_flags(uint64_t idx, Ctx& c) {
                 continue;
             }
             c.count("flags:compiled");
+            if (crashes_guarded(c, root, pat, opts.c_str(), STR)) continue;
             if (oi == 0) count_compiled(c, C.re, "flags[" + fls + "]");
             std::vector<int8_t> got(NS, -9);
             size_t bad = 0, firstbad = 0, badpos = 0, firstpos = 0; std::string det, posdet;
@@ -865,6 +884,7 @@ static void run_history(uint64_t idx, Ctx& c) {
         const char* opts = mode == 0 ? "X" : "";
         const std::string mname = mode == 0 ? "xsd" : "xpath";
         const std::vector<uint8_t>& ref = mode == 0 ? refX : refS;
+        if (crashes_guarded(c, root, pat, opts, STR)) continue;
         // baseline: fresh object and fresh Match per string
         std::vector<MRes> base(NS);
         bool ok = true;
@@ -924,6 +944,7 @@ static void run_tokrep(uint64_t idx, Ctx& c) {
         const std::string mname = mode == 0 ? "xsd" : "xpath";
         Compiled C; compile(C, pat, opts);
         if (C.exc != EX_NONE) { c.violation("valid-pattern-rejected-" + mname, ast_json(root) + ",\"options\":" + jstr(opts) + ",\"exception\":" + jstr(EXNAME[C.exc])); continue; }
+        if (crashes_guarded(c, root, pat, opts, STR)) continue;
         size_t badT = 0, badR = 0, badP = 0; std::string dT, dR, dP;
         PosEval P;
         for (size_t i = 0; i < NS; i++) {
@@ -1248,6 +1269,7 @@ static void run_facet(uint64_t idx, Ctx& c) {
     size_t NS = STR.s.size();
     std::vector<uint8_t> refX, refS;
     deriv_verdicts(c, root, sem, refX, refS);
+    if (crashes_guarded(c, root, pat, "X", STR)) return;
     g_vfs->clear();
     g_vfs->put("/v/s.xsd",
                "<xs:schema xmlns:xs=\"http://www.w3.org/2001/XMLSchema\"><xs:element name=\"l\"><xs:complexType><xs:sequence>"
@@ -1339,7 +1361,14 @@ int main(int argc, char** argv) {
     if (a.has("from") || a.has("to")) {  // development aid: run only the cases [from,to) of the space (the others are no-ops)
         uint64_t from = (uint64_t)a.num("from", 0), to = (uint64_t)a.num("to", (long long)R.total);
         auto inner = R.fn;
-        R.fn = [inner, from, to](uint64_t i, Ctx& c) { if (i >= from && i < to) inner(i, c); else c.count("outside_slice"); };
+        R.fn = [inner, from, to](uint64_t i, Ctx& c) {
+            if (i < from || i >= to) { c.count("outside_slice"); return; }
+            struct timespec t0, t1; clock_gettime(CLOCK_MONOTONIC, &t0);
+            inner(i, c);
+            clock_gettime(CLOCK_MONOTONIC, &t1);
+            double dt = (t1.tv_sec - t0.tv_sec) + (t1.tv_nsec - t0.tv_nsec) * 1e-9;
+            if (dt > 2.0) fprintf(stderr, "SLOW case %llu %.1fs\n", (unsigned long long)i, dt);
+        };
     }
     return R.main_tail(a);
 }
